@@ -8,26 +8,39 @@ BASE = {'MatGroupFKM': 'Steel', 'FinishingFKM': 'none', 'R_m': 600.0, 'R_z': 25.
         'max_load_independently_for_nodes': True}
 
 
-def load_series(seq, ratios):
-    if len(ratios) == 1 and ratios[0] == 1:
-        pass
-    idx = pd.MultiIndex.from_product([range(len(seq)), range(len(ratios))], names=['load_step', 'node_id'])
+SCATTERED = [7, 3, 9, 4, 1]      # unsorted node ids
+
+
+def load_series(seq, ratios, layout='plain'):
+    """Batch of proportional points as a (load_step, node_id) Series.  layout: see Assessment.tla (Layouts)."""
+    ids = SCATTERED[:len(ratios)] if layout == 'scattered_ids' else list(range(len(ratios)))
+    if layout == 'node_major':      # rows ordered node by node
+        d = {i: pd.Series([float(r) * float(v) for v in seq], index=pd.Index(range(len(seq)), name='load_step')) for i, r in zip(ids, ratios)}
+        return pd.concat(d, names=['node_id', 'load_step']).swaplevel()
+    idx = pd.MultiIndex.from_product([range(len(seq)), ids], names=['load_step', 'node_id'])
     return pd.Series([float(r) * float(v) for v in seq for r in ratios], index=idx)
 
 
-def assess(seq, ratios=(1.0,), overrides=None, G=None, single=False):
+def assess(seq, ratios=(1.0,), overrides=None, G=None, single=False, layout='plain'):
     """Returns list (per point) of dicts: ram, raj (cycles, may be inf), ram_inf, raj_inf (infinite-life verdicts)."""
     from pylife.strength.fkm_nonlinear.assessment_nonlinear_standard import perform_fkm_nonlinear_assessment
     p = dict(BASE)
     if overrides:
         p.update(overrides)
     if G is not None:
-        p['G'] = pd.Series(list(G), index=pd.Index(range(len(G)), name='node_id')) if not np.isscalar(G) else float(G)
+        if np.isscalar(G):
+            p['G'] = float(G)
+        else:
+            labels = {'scattered_ids': SCATTERED[:len(G)], 'g_labels': [11, 5, 8, 2, 6][:len(G)]}.get(layout, list(range(len(G))))
+            p['G'] = pd.Series(list(G), index=pd.Index(labels, name='node_id'))
     ap = pd.Series(p)
     if single:
         ls = pd.Series([float(ratios[0]) * float(v) for v in seq])
+        if layout == 'spliced_index':      # labels as left behind by pd.concat([head, new, tail]): not ascending, with repeats
+            n = len(ls)
+            ls.index = pd.Index([(5 * i + 3) % n for i in range(n)][:n // 2] + list(range(n - n // 2)))
     else:
-        ls = load_series(seq, ratios)
+        ls = load_series(seq, ratios, layout)
     with warnings.catch_warnings(), contextlib.redirect_stdout(io.StringIO()):
         warnings.simplefilter('ignore')
         res = perform_fkm_nonlinear_assessment(ap, ls, calculate_P_RAM=True, calculate_P_RAJ=True)
